@@ -16,7 +16,7 @@ def hist_line(sch, events, dev="ecu"):
         if e["op"] == "T":
             toks += ["T", str(glue.bits_to_int(e["t"]))]
         else:
-            st = glue.find(sch["structs"], e["msg"])
+            st = glue.find(sch["structs"], glue.find(sch["impls"], e["msg"])["type"])       # a binding may be an alias of a struct
             toks += [e["msg"]] + cdriver.value_tokens(sch, st, e["value"])
     return " ".join(toks)
 
